@@ -132,13 +132,14 @@ def history(rng, nops=(2, 8), invalid_share=0.3, dtype_focus=False):
         if rng.random() < invalid_share:
             bad = rng.choice(["add_incompatible", "iadd_incompatible", "mul_hist", "add_array", "fill_n_wshape", "neg_imul",
                               "zero_idiv", "set_dtype_bad", "sub_too_much", "item_range", "add_none", "neg_idiv",
-                              "merge_frac", "rdiv", "imul_array", "imul_overflow"])
+                              "merge_frac", "rdiv", "imul_array", "imul_overflow"]
+                             + (["fill_n_inf", "fill_n_inf"] if (b.get("t") == "fixed" and b.get("adaptive")) else []))
             tags.append("bad:" + bad)
             if bad == "add_incompatible":
                 ops.append({"op": "add", "a": h, "b": 2, "out": nfree, "expect_refused": True}); nfree += 1
             elif bad == "iadd_incompatible":
                 ops.append({"op": "iadd", "h": h, "o": 2, "expect_refused": True})
-            elif bad in ("mul_hist", "add_array", "add_none", "rdiv", "imul_array", "imul_overflow"):
+            elif bad in ("mul_hist", "add_array", "add_none", "rdiv", "imul_array", "imul_overflow", "fill_n_inf"):
                 ops.append({"op": "invalid", "what": bad, "h": h, "o": 1 - h if h < 2 else 0})
             elif bad == "fill_n_wshape":
                 vs = vals_near(rng, b, pairs, w, 3)
